@@ -39,7 +39,11 @@ RxOK(e) ==
        /\ IF D.st = "end" /\ ~r.open
           THEN /\ \/ e.d = r.out
                   \/ r.closed /\ r.reason # <<>> /\ e.d = Append(r.out, r.reason)
-               /\ IF e.role = "s" THEN e.reply = reply ELSE e.rn = Len(reply) + 4 * Len(r.pongs)
+               /\ IF e.role = "s" THEN e.reply = reply
+                  ELSE LET full == Len(reply) + 4 * Len(r.pongs)
+                           \* (an empty ping as the very last frame before the EOF: its pong may be missing, see WsFrameStreams!EmitRec)
+                           lastempty == D.fs # <<>> /\ D.fs[Len(D.fs)].op = OpPing /\ D.fs[Len(D.fs)].pl = <<>>
+                       IN IF e.rn = full THEN TRUE ELSE lastempty /\ e.rn + 6 = full
           ELSE /\ IsPrefixSeq(r.out, e.d) /\ Len(e.d) <= Len(r.out) + 1
                /\ (e.role = "s" => IsPrefixSeq(reply, e.reply))
 
